@@ -4,6 +4,7 @@ CONSTANTS
   RegPeers <- MCRegPeers
   AllPeers <- MCAllPeers
   Cums <- MCCums
+  ClaimKeys <- MCKeys
 INVARIANT Report
 POSTCONDITION AllConsumed
 CHECK_DEADLOCK FALSE
